@@ -119,6 +119,7 @@ theorem brace_tag (t : Ty) (h : TyOkN t = true) (pre suf : Bytes) (e : tag t = p
     exact (brace_list es (tyOkAlts_forall h.2) pre' suf' h3).mono (fun _ h => h) _
   | .enum u n ens =>
     simp only [TyOkN, isNull, TyOk, Bool.false_or, Bool.and_eq_true] at h
+    replace h := h.1
     exfalso
     have hmem : cLBrace ∈ tag (.enum u n ens) := by rw [e]; simp
     rw [tag_enum] at hmem
